@@ -163,9 +163,18 @@ func runC03(run *common.Run) {
 		contents := [][]string{c03U, {"a", "a\x00\x00", "b"}, {"a\x00", "ab", "\xff", "\x00"}}
 		var tables []c03Table
 		for ti, keys := range contents {
-			name := drive.MustTable(srv.Admin, fmt.Sprintf("u%d", ti), "f")
-			for _, k := range keys {
-				if st := drive.MutateRow(srv.Data, name, k, []model.Mut{{Kind: model.SetCell, Fam: "f", Qual: "q", TS: 1000, Val: "v" + k}}); !st.OK() {
+			name := drive.MustTable(srv.Admin, fmt.Sprintf("u%d", ti), "f", "g")
+			for ki, k := range keys {
+				// row shapes: the first column of the row / of a later family has the EMPTY qualifier (legal, and the
+				// chunk stream must still name it), several columns, several versions, empty values
+				muts := []model.Mut{{Kind: model.SetCell, Fam: "f", Qual: "q", TS: 1000, Val: "v" + k}}
+				switch (ki + ti) % 3 {
+				case 0:
+					muts = append(muts, model.Mut{Kind: model.SetCell, Fam: "f", Qual: "", TS: 1000, Val: "e" + k}, model.Mut{Kind: model.SetCell, Fam: "f", Qual: "", TS: 2000, Val: ""})
+				case 1:
+					muts = append(muts, model.Mut{Kind: model.SetCell, Fam: "g", Qual: "", TS: 1000, Val: ""}, model.Mut{Kind: model.SetCell, Fam: "g", Qual: "q", TS: 1000, Val: "w"})
+				}
+				if st := drive.MutateRow(srv.Data, name, k, muts); !st.OK() {
 					run.Violation("setup", ei, "set-up write failed: "+st.String(), nil)
 					return
 				}
